@@ -3,7 +3,8 @@
    meets no conflict, or its conflict is resolved directly (Distinct_Proofs.direct, a computed
    condition whose coverage of the run's additions is reported in the evidence).  The complement
    is refuted in P_C11.v (D13) and P_C19.v (divergence).  Statements only. *)
-From Moq Require Import Strs GoTypes TypeString VarName Registry Registry_Proofs Distinct_Proofs.
+From Moq Require Import Strs GoTypes TypeString VarName Registry Scope Gen Registry_Proofs Distinct_Proofs
+     Benign WellScoped DistinctRun_Proofs.
 Local Open Scope list_scope.
 
 Theorem C11_distinct_known cfg r p r' path i :
@@ -36,3 +37,27 @@ Example C11_distinct_direct_example :
   add_import (mkRcfg "x/src" []) r (mkPkg "a/two/client" "client") =
   AddOk [mkImp "a/one/client" "client" "oneclient"; mkImp "a/two/client" "client" "twoclient"] "a/two/client".
 Proof. exact direct_example. Qed.
+
+(* one statement for the three classes: an addition the model classifies as known, conflict-free or
+   directly resolved keeps paths and qualifiers of the import map pairwise distinct *)
+Theorem C11_distinct_step cfg r p r' path :
+  RD r -> classify_add cfg r p < 3 -> add_import cfg r p = AddOk r' path -> RD r'.
+Proof. exact (add_import_distinct_step cfg r p r' path). Qed.
+
+(* the whole run: if every AddImport of the run is of such a class (a computed guard, reported per
+   case), no two imports of the output share a qualifier *)
+Theorem C11_distinct_whole_run i c args d :
+  mock_run i c args = Ok d -> benign_run i c args = true -> imports_distinct d = true.
+Proof. exact (run_qualifiers_distinct i c args d). Qed.
+
+(* the guard holds on a run that has to re-alias (two packages called client, generated elsewhere) *)
+Example C11_distinct_guard_holds :
+  let src := mkPkg "example.com/m/store" "store" in
+  let a := mkPkg "example.com/m/one/client" "client" in
+  let b := mkPkg "example.com/m/two/client" "client" in
+  let i := mkInput src [] None
+     [("Repo", LIface true true []
+        [mkMethod "Get" (mkSig [("x", TNamed (Some a) "T" []); ("k", TNamed (Some src) "Key" [])] false
+                               [("", TPtr (TNamed (Some b) "T" []))])])] in
+  benign_run i (mkConfig "mocks" false false false) ["Repo"] = true.
+Proof. vm_compute. reflexivity. Qed.
